@@ -151,7 +151,7 @@ struct ompi_predefined_op_t ompi_mpi_op_max = {{1, OP_MAX}}, ompi_mpi_op_min = {
 /* ------------------------------------------------------------------ global state */
 static struct {
     int nranks;
-    int inited[MAXR], finalized[MAXR];
+    int inited[MAXR], finalized[MAXR], provided[MAXR];
     msg_t *inbox[MAXR];                 /* unmatched messages, sorted by (t_arr, seq) */
     struct ompi_request_t *posted[MAXR], *posted_tail[MAXR];
     struct ompi_request_t *sendq;       /* incomplete send requests (for ext timer) */
@@ -502,14 +502,17 @@ int MPI_Init_thread(int *argc, char ***argv, int req, int *prov)
 {
     (void)argc; (void)argv;
     M.inited[myrank()] = 1;
-    *prov = req < M.thread_level ? req : M.thread_level;
+    /* cfg.thread_level unset: the requested level is provided (what OpenMPI does).  Set: the library provides that
+     * level whatever was requested (the standard allows a higher level than required, and a lower one) */
+    *prov = M.cfg.thread_level ? M.cfg.thread_level : req;
+    M.provided[myrank()] = *prov;
     return MPI_SUCCESS;
 }
 int MPI_Init(int *argc, char ***argv) { int p; return MPI_Init_thread(argc, argv, MPI_THREAD_SINGLE, &p); }
 int MPI_Initialized(int *f) { *f = M.inited[myrank()]; return MPI_SUCCESS; }
 int MPI_Finalized(int *f) { *f = M.finalized[myrank()]; return MPI_SUCCESS; }
 int MPI_Finalize(void) { M.finalized[myrank()] = 1; return MPI_SUCCESS; }
-int MPI_Query_thread(int *p) { *p = M.thread_level; return MPI_SUCCESS; }
+int MPI_Query_thread(int *p) { *p = M.provided[myrank()]; return MPI_SUCCESS; }
 int MPI_Abort(MPI_Comm c, int code)
 {
     (void)c;
